@@ -7,7 +7,7 @@ from . import line_common as lc
 
 GEN_SECTIONS = ["Unicode", "Regexes", "Tables"]
 LEAVES = {'LoopTracks': []}
-IMP = ['globalEventsFromChartLines']  # functions dumped as terms of the imperative embedding, run against CPython on every run
+IMP = ['globalEventsFromChartLines', 'globalEventsParseData']  # functions dumped as terms of the imperative embedding, run against CPython on every run
 TRUSTED = [
     "Lean 4 kernel; axioms ⊆ {propext, Classical.choice, Quot.sound}",
     "translator: the three quoted-event patterns and the recorded kind order of the events section",
